@@ -3,7 +3,7 @@ From Coq Require Import List Arith Bool Lia.
 From OW Require Import Sim.SimAux.
 Import ListNotations.
 
-Set Implicit Arguments.
+
 
 (** relation between two optional results: both fail, or both succeed with related values *)
 Definition orel {A B} (R : A -> B -> Prop) (o1 : option A) (o2 : option B) : Prop :=
@@ -235,7 +235,7 @@ Proof.
   2:{ apply nth_error_None in E. lia. }
   cbn. rewrite IH by lia. cbn. f_equal.
   unfold slice_rows.
-  rewrite (skipn_nth_cons tbl start E). reflexivity.
+  rewrite (skipn_nth_cons tbl start a E). reflexivity.
 Qed.
 
 Lemma mapM_In {A B} (f : A -> option B) l ys :
@@ -267,7 +267,7 @@ Qed.
 (** post-processing that changes exactly one position *)
 Lemma mapM_bind_one {A B} (f : A -> option B) (h : A -> B -> option B) l j r0 ys :
   NoDup l -> nth_error l j = Some r0 ->
-  (forall r x, r <> r0 -> h r x = Some x) ->
+  (forall r x, In r l -> r <> r0 -> h r x = Some x) ->
   mapM f l = Some ys ->
   mapM (fun r => x <- f r ;; h r x) l = upd_nth ys j (h r0).
 Proof.
@@ -279,10 +279,11 @@ Proof.
   - inversion Hj; subst. destruct (h r0 b); cbn; [|reflexivity].
     rewrite mapM_bind_id.
     + rewrite Mr. reflexivity.
-    + intros r1 x Hr1. apply Hh. intros ->. contradiction.
-  - rewrite Hh.
+    + intros r1 x Hr1. apply Hh; [right; exact Hr1|]. intros ->. contradiction.
+  - rewrite Hh; [|left; reflexivity|].
     2:{ intros ->. apply H1. eapply nth_error_In; eauto. }
-    cbn. rewrite (IH j ys0 H2 Hj Hh eq_refl). reflexivity.
+    cbn. rewrite (IH j ys0 H2 Hj); [reflexivity| |reflexivity].
+    intros r1 x Hr1 Hne. apply Hh; [right; exact Hr1|exact Hne].
 Qed.
 
 Lemma map_nth_seq {A} (l : list A) (dflt : A) : map (fun j => nth j l dflt) (seq 0 (length l)) = l.
@@ -308,3 +309,29 @@ Qed.
 Lemma obind_assoc {A B C} (o : option A) (f : A -> option B) (g : B -> option C) :
   obind (obind o f) g = obind o (fun a => obind (f a) g).
 Proof. destruct o; reflexivity. Qed.
+
+(** ---- write_rows ---- *)
+Lemma write_rows_here {A} (rows : list A) (k : nat) :
+  write_rows (repeat None (length rows + k)) 0 rows = Some (map Some rows ++ repeat None k).
+Proof.
+  induction rows as [|y ys IH]; cbn [length Nat.add map app].
+  - destruct (repeat None k); reflexivity.
+  - cbn [repeat write_rows]. rewrite IH. reflexivity.
+Qed.
+
+Lemma write_rows_spec {A} (pre : list (option A)) (rows : list A) (k : nat) :
+  write_rows (pre ++ repeat None (length rows + k)) (length pre) rows =
+  Some (pre ++ map Some rows ++ repeat None k).
+Proof.
+  induction pre as [|x pre IH]; cbn [length app].
+  - apply write_rows_here.
+  - cbn [write_rows]. rewrite IH. reflexivity.
+Qed.
+
+Lemma firstn_add_skipn {A} (l : list A) a c : firstn (a + c) l = firstn a l ++ firstn c (skipn a l).
+Proof.
+  revert l; induction a as [|a IH]; intros l; cbn; [reflexivity|].
+  destruct l as [|x l]; cbn.
+  - rewrite firstn_nil. reflexivity.
+  - rewrite IH. reflexivity.
+Qed.
